@@ -154,8 +154,9 @@ void StatementBuilder::struct_field(const char* name)
     type_t type = typeFragments[0];
     typeFragments.pop();
 
-    // Constant fields are not allowed
-    if (type.is(CONSTANT)) {
+    // Constant fields are not allowed, nor arrays of constants (which type_t::is(CONSTANT) does not see): a record is
+    // mutable only if every field is, so one such field would make the whole variable read-only
+    if (!type.is_mutable()) {
         handle_error(TypeException{"$Constant_fields_not_allowed_in_struct"});
     }
 
